@@ -211,6 +211,22 @@ func boundaries(t *testing.T, plan harness.Plan) {
 			return
 		}
 	}
+	// ... the limit is on the number of digits, not on the value: leading zeros count
+	for d := 2; d <= 11; d++ {
+		for _, last := range []string{"1", "8", "9"} {
+			num := strings.Repeat("0", d-1) + last
+			exp := "<p>" + num + ". x</p>"
+			if d <= 9 {
+				exp = `<ol start="` + last + `"><li>x</li></ol>`
+				if last == "1" {
+					exp = "<ol><li>x</li></ol>"
+				}
+			}
+			if try(num+". x", exp) {
+				return
+			}
+		}
+	}
 	// spaces after a list marker: 1-4 belong to the marker, 5+ start an indented code block
 	for sp := 1; sp <= 7; sp++ {
 		exp := "<ul><li>x</li></ul>"
@@ -321,7 +337,7 @@ func boundaries(t *testing.T, plan harness.Plan) {
 			return
 		}
 	}
-	harness.SetExhaustive(name, fmt.Sprintf("%d boundary documents: HTML block tag-name tables (62 names x case x 5 tag forms), autolink scheme lengths 1-34, numeric reference digit counts, label lengths around 999 (on one line, and on 2-5 lines inside quotes and list items), list start digits 1-11, spaces after a marker 1-7, indentation 0-4 per block kind, fence lengths, ATX levels 1-8, setext indentation, hard-break spaces, all named character references", n))
+	harness.SetExhaustive(name, fmt.Sprintf("%d boundary documents: HTML block tag-name tables (62 names x case x 5 tag forms), autolink scheme lengths 1-34, numeric reference digit counts, label lengths around 999 (on one line, and on 2-5 lines inside quotes and list items), list start digits 1-11 (also with leading zeros), spaces after a marker 1-7, indentation 0-4 per block kind, fence lengths, ATX levels 1-8, setext indentation, hard-break spaces, all named character references", n))
 }
 
 func min1(d int) int {
